@@ -121,6 +121,10 @@ def attr_reads(fn, methods, depth=2, _seen=None):
                 out |= attr_reads(methods[a], methods, depth - 1, _seen)
             elif a not in methods:
                 out.add(a)
+            elif depth > 0 and a not in _seen and not _is_property(methods[a]):
+                # self.method(...) called (or handed on): what that method reads is read here too
+                _seen.add(a)
+                out |= attr_reads(methods[a], methods, depth - 1, _seen)
     return out
 
 
@@ -219,7 +223,9 @@ def stale_writers(minfo, family, memo, lazy=()):
                         for x in ast.walk(t):
                             if isinstance(x, ast.Attribute) and isinstance(x.value, ast.Name) and x.value.id == 'self' and isinstance(x.ctx, ast.Store):
                                 if x.attr == memo.attr:
-                                    resets = True
+                                    # `self.memo += ...` extends whatever the memo holds - nothing when it was never filled: not a reset
+                                    if not isinstance(n, ast.AugAssign):
+                                        resets = True
                                 elif x.attr in need:
                                     assigned.setdefault(x.attr, n)
             if assigned and not resets:
